@@ -2,7 +2,10 @@ package main
 
 import (
 	"fmt"
+	"go/token"
 	"strings"
+
+	"golang.org/x/tools/go/ssa"
 )
 
 // shape fields of the wire message: everything that fixes node numbering,
@@ -94,6 +97,131 @@ func checkC13(p *Program, r *Report) {
 			r.Unk("wire field "+pf.path, "", fmt.Sprintf("expected a store under control label %s, found labels %s: option loads are no longer recognised", pf.lbl, wf.labels))
 		}
 	}
+	checkOptNormalisation(p, r)
+}
+
+// checkOptNormalisation (C13.complete): on the guarded summary of the option
+// normalisation (the loop-free function under NewSlimTrie that stores into the
+// Opt fields), on every path where Complete is set and true the final value of
+// InnerPrefix and of LeafPrefix is a pointer to true — whatever the caller put
+// there — and on every path all three flags the builder dereferences are
+// non-nil afterwards.
+func checkOptNormalisation(p *Program, r *Report) {
+	r.Rule("C13.complete", "E11", "Complete=true forces InnerPrefix and LeafPrefix to true; no flag is left nil", 2)
+	entry := p.Trie.Func("NewSlimTrie")
+	if entry == nil {
+		r.Unk("option normalisation", "", "trie.NewSlimTrie not found")
+		return
+	}
+	hasOptEffects := func(ps []fpath) bool {
+		for _, fp := range ps {
+			for _, e := range fp.effects {
+				if strings.HasSuffix(e.path, ".InnerPrefix") || strings.HasSuffix(e.path, ".LeafPrefix") {
+					return true
+				}
+			}
+		}
+		return false
+	}
+	var norm *ssa.Function
+	var paths []fpath
+	cands := []*ssa.Function{}
+	for _, c := range callsIn(entry) {
+		if g := calleeOf(c); g != nil && trieScope(g) && len(g.Blocks) > 0 && !hasLoop(g) {
+			cands = append(cands, g)
+		}
+	}
+	cands = append(cands, entry)
+	for _, g := range dedupFuncs(cands) {
+		ps, why := flatten(p, g, nil, trieScope)
+		if why == "" && hasOptEffects(ps) {
+			norm, paths = g, ps
+			break
+		}
+	}
+	if norm == nil {
+		r.Unk("option normalisation", p.Pos(entry.Pos()), "no loop-free function under NewSlimTrie stores into Opt.InnerPrefix/LeafPrefix (anchor not found)")
+		return
+	}
+	r.Func(shortFn(norm))
+	isTrue := func(v string) bool {
+		return strings.HasPrefix(v, "call:") && strings.HasSuffix(v, ".Bool(true)") || v == "&true"
+	}
+	nonNil := func(v string) bool {
+		return strings.HasPrefix(v, "call:") && strings.Contains(v, ".Bool(") || strings.HasPrefix(v, "&") || strings.HasPrefix(v, "local:")
+	}
+	var badC, badN []string
+	nComplete := 0
+	for _, fp := range paths {
+		if fp.panics {
+			continue
+		}
+		complete := true // Complete may be set and true on this path unless a condition says otherwise
+		nilAtEntry := map[string]bool{}
+		bare := map[string]bool{}
+		for _, c := range fp.pc {
+			a, op, b, ok := splitCond(c)
+			if !ok {
+				// a boolean used as a condition directly: "X" or "!X"
+				if !strings.HasPrefix(c, "!") {
+					bare[c] = true
+				} else if strings.HasSuffix(c, ".Complete") {
+					complete = false
+				}
+				continue
+			}
+			isC := func(x string) bool { return strings.HasSuffix(x, ".Complete") }
+			if (op == "!=" && ((isC(a) && b == "true") || (isC(b) && a == "true"))) || (op == "==" && ((isC(a) && (b == "false" || b == "nil")) || (isC(b) && (a == "false" || a == "nil")))) {
+				complete = false
+			}
+			if op == "==" && a == "nil" {
+				for _, f := range []string{"DedupValue", "InnerPrefix", "LeafPrefix"} {
+					if strings.HasSuffix(b, "."+f) {
+						nilAtEntry[f] = true
+					}
+				}
+			}
+		}
+		final := map[string]string{}
+		for _, e := range fp.effects {
+			for _, f := range []string{"DedupValue", "InnerPrefix", "LeafPrefix"} {
+				if strings.HasSuffix(e.path, "."+f) {
+					v := e.val.String()
+					// Bool(X) where X is a condition known true on this path
+					for c := range bare {
+						if strings.HasSuffix(v, ".Bool("+c+")") {
+							v = strings.TrimSuffix(v, c+")") + "true)"
+						}
+					}
+					final[f] = v
+				}
+			}
+		}
+		if complete {
+			nComplete++
+			for _, f := range []string{"InnerPrefix", "LeafPrefix"} {
+				if !isTrue(final[f]) && !(strings.HasPrefix(final[f], "call:") && strings.HasSuffix(final[f], ".Complete)") && strings.Contains(final[f], ".Bool(")) {
+					got := final[f]
+					if got == "" {
+						got = "left as the caller set it"
+					}
+					badC = append(badC, fmt.Sprintf("on the path [%s] Complete can be true but %s is %s", abbreviate(fp.pcKey()), f, got))
+				}
+			}
+		}
+		for _, f := range []string{"DedupValue", "InnerPrefix", "LeafPrefix"} {
+			if nilAtEntry[f] && !nonNil(final[f]) {
+				badN = append(badN, fmt.Sprintf("on the path [%s] %s is nil on entry and is not given a value", abbreviate(fp.pcKey()), f))
+			}
+		}
+	}
+	if nComplete == 0 {
+		r.Unk(shortFn(norm)+": Complete implies both prefixes", p.Pos(norm.Pos()), "no path of the summary tests Complete == true")
+	} else {
+		r.Check(len(badC) == 0, shortFn(norm)+": Complete implies both prefixes", p.Pos(norm.Pos()), fmt.Sprintf("%d paths with Complete true, each ends with InnerPrefix = LeafPrefix = Bool(true)", nComplete),
+			strings.Join(firstN(dedupStrings(sortStr(badC)), 3), "; ")+": a trie built as \"Complete\" stores less than both prefixes and reports absent keys as found")
+	}
+	r.Check(len(badN) == 0, shortFn(norm)+": no flag left nil", p.Pos(norm.Pos()), fmt.Sprintf("%d paths, every flag nil on entry is assigned", len(paths)), strings.Join(firstN(dedupStrings(sortStr(badN)), 3), "; "))
 }
 
 func checkC17(p *Program, r *Report) {
@@ -151,6 +279,157 @@ func checkC17(p *Program, r *Report) {
 	if n == 0 {
 		r.Unk("key material in the output message", "", "no wire field carries key material: the key label source is dead (seed not recognised)")
 	}
+
+	// ---- shape of the filter-mode message does not depend on key content.
+	// keydata labels every value computed from key elements (integers and, through control
+	// dependence, decisions). Two things decide how many bytes a per-node section costs and must
+	// not carry it outside the value/prefix payload sections: the element width of a packed array
+	// (FixedSize) and whether a section (a pointer field of the message) is built at all.
+	r.Rule("C17.width", "E2", "per-node element widths outside Leaves/LeafPrefixes are not computed from key content", 1)
+	payload := func(path string) bool {
+		return strings.HasPrefix(path, "Slim.Leaves") || strings.HasPrefix(path, "Slim.LeafPrefixes")
+	}
+	alive := false
+	for _, wf := range bf.sortedWire() {
+		if wf.labels[lblKeyData] {
+			alive = true
+		}
+	}
+	if !alive {
+		r.Unk("key-derived data in the output message", "", "no wire field carries the keydata label: the label source is dead")
+	}
+	for _, wf := range bf.sortedWire() {
+		if payload(wf.path) || !strings.HasSuffix(wf.path, ".FixedSize") || len(wf.stores) == 0 {
+			continue
+		}
+		tainted := wf.labels[lblKeyData]
+		pos := p.Pos(wf.stores[0].pos)
+		for _, ev := range wf.stores {
+			if ev.labels[lblKeyData] || ev.ctl[lblKeyData] {
+				tainted = true
+				pos = p.Pos(ev.pos)
+			}
+		}
+		r.Check(!tainted, "wire field "+wf.path, pos, "element width "+wf.labels.String()+" does not depend on key content",
+			"the element width of this per-node array is computed from key content (labels "+wf.labels.String()+"): lengthening keys without moving their branch points (a long common prefix, one long branch-free run) changes the cost of every node's entry, so the size of a filter-mode index depends on key length")
+	}
+	r.Rule("C17.sections", "E2", "whether a per-node section of the message is built does not depend on key content", 4)
+	for _, wf := range bf.sortedWire() {
+		if payload(wf.path) || !wf.ptr {
+			continue
+		}
+		for _, ev := range wf.stores {
+			construct := "section " + wf.path
+			if !ev.ctl[lblKeyData] {
+				r.OK(construct, p.Pos(ev.pos), "built under control labels "+ev.ctl.String())
+				continue
+			}
+			why := onlyEmptinessOfNodeCount(p, ev)
+			if why == "" {
+				r.OK(construct, p.Pos(ev.pos), "built unless the trie has no node at all (emptiness marker): K and P+K are empty together")
+			} else {
+				r.Bad(construct, p.Pos(ev.pos), "this section is built or omitted depending on key content ("+why+"): a key set K and its lengthening P+K can differ by the whole section, whose size is proportional to the node count")
+			}
+		}
+	}
+}
+
+// onlyEmptinessOfNodeCount: within its function, the store is control
+// dependent only on option tests and on comparisons of the builder's node
+// count with zero (the documented "no NodeTypeBM for an empty trie" marker).
+// Returns "" when so, otherwise the offending condition.
+func onlyEmptinessOfNodeCount(p *Program, ev *storeEvent) string {
+	var blk *ssa.BasicBlock
+	instrsOf(ev.fn, func(b *ssa.BasicBlock, in ssa.Instruction) {
+		if in.Pos() == ev.pos {
+			if _, ok := in.(*ssa.Store); ok {
+				blk = b
+			}
+		}
+	})
+	if blk == nil {
+		return "store not located"
+	}
+	deps := controlDeps(ev.fn, nil)
+	seen := map[*ssa.BasicBlock]bool{}
+	var conds []*ssa.If
+	var walk func(b *ssa.BasicBlock)
+	walk = func(b *ssa.BasicBlock) {
+		if seen[b] {
+			return
+		}
+		seen[b] = true
+		for _, d := range deps[b] {
+			if iff, ok := lastInstr(d.branch).(*ssa.If); ok {
+				conds = append(conds, iff)
+			}
+			walk(d.branch)
+		}
+	}
+	walk(blk)
+	nodeCountZero := func(v ssa.Value) bool {
+		bo, ok := v.(*ssa.BinOp)
+		if !ok {
+			return false
+		}
+		for _, pair := range [][2]ssa.Value{{bo.X, bo.Y}, {bo.Y, bo.X}} {
+			if k, ok := constInt(pair[1]); ok && k == 0 {
+				if ld, ok := deref(pair[0]); ok {
+					if _, fv, fa := fieldOfAddr(ld); fa != nil && fv.Name() == "nodeCnt" {
+						return true
+					}
+				}
+			}
+		}
+		return false
+	}
+	found := false
+	for _, iff := range conds {
+		if nodeCountZero(iff.Cond) {
+			found = true
+			continue
+		}
+		// a condition that reads no builder state (an option test) is not key content
+		readsState := false
+		var visit func(v ssa.Value, d int)
+		visit = func(v ssa.Value, d int) {
+			if d > 6 || v == nil {
+				return
+			}
+			switch x := v.(type) {
+			case *ssa.UnOp:
+				if x.Op == token.MUL {
+					if _, fv, fa := fieldOfAddr(x.X); fa != nil {
+						if n := namedOf(fa.X.Type()); n != nil && n.Obj().Name() == "Opt" {
+							return
+						}
+						_ = fv
+					}
+					if inner, ok := x.X.(*ssa.UnOp); ok && inner.Op == token.MUL {
+						visit(inner, d+1)
+						return
+					}
+					readsState = true
+					return
+				}
+				visit(x.X, d+1)
+			case *ssa.BinOp:
+				visit(x.X, d+1)
+				visit(x.Y, d+1)
+			case *ssa.Const:
+			default:
+				readsState = true
+			}
+		}
+		visit(iff.Cond, 0)
+		if readsState {
+			return "controlled by the condition at " + p.Pos(iff.Cond.Pos())
+		}
+	}
+	if !found {
+		return "key-content control label inherited from a caller"
+	}
+	return ""
 }
 
 func init() {
